@@ -52,7 +52,7 @@ Definition expected_guards_dnsforward : table :=
 
     ("dnsforward.Server.processInitial",
      [ (* run_stage StInitial: c_aaaa_disabled && AAAA => (RcFinish, set_resp p nodata) *)
-       GIf "" "if s.conf.AAAADisabled && qt == dns.TypeAAAA" "return resultCodeFinish" true;
+       GIf "" "if qt == dns.TypeAAAA && s.aaaaDisabled()" "return resultCodeFinish" true;
        (* run_stage StInitial: A/AAAA for mozilla_fqdn => (RcFinish, set_resp p nxdomain) *)
        GIf "" "if (qt == dns.TypeA || qt == dns.TypeAAAA) && q.Name == mozillaFQDN" "return resultCodeFinish" true;
        (* run_stage StInitial: healthcheck_fqdn => (RcFinish, set_resp p empty_ok) *)
